@@ -1,7 +1,8 @@
 import DoltVerif.Model.Wire
 import DoltVerif.Model.Txn
 import DoltVerif.Model.TxnIdx
-open DoltVerif DoltVerif.Txn DoltVerif.TxnIdx DoltVerif.Wire
+import DoltVerif.Model.TxnCons
+open DoltVerif DoltVerif.Txn DoltVerif.TxnIdx DoltVerif.TxnCons DoltVerif.Wire
 
 def cellStr : Cell → String
   | none => "N"
@@ -86,15 +87,52 @@ def parseIOp : List String → Option IOp
   | ["xdrop", name] => some (.dropIndex name)
   | _ => none
 
+/-! ### C24: declared constraints -/
+
+def parseNats (s : String) : Option (List Nat) :=
+  if s == "-" then some [] else (s.splitOn ",").mapM (·.toNat?)
+
+def parseChecks (s : String) : Option (List (Nat × Int)) :=
+  if s == "-" then some [] else (s.splitOn ",").mapM (fun t => match t.splitOn ":" with
+    | [c, k] => do pure (← c.toNat?, ← k.toInt?)
+    | _ => none)
+
+def parseUniques (s : String) : Option (List (List Nat)) :=
+  if s == "-" then some [] else (s.splitOn ",").mapM (fun t => (t.splitOn ".").mapM (·.toNat?))
+
+def cresStr : CRes → String
+  | .ok => "ok" | .dupKey => "dup-key" | .notNull => "not-null" | .check => "check" | .fk => "fk"
+
+def parseCOp : List String → Option COp
+  | "ycins" :: k :: cells => do pure (.cins (← k.toInt?) (← cells.mapM parseCell))
+  | ["ycupd", k, c, v] => do pure (.cupd (← k.toInt?) (← c.toNat?) (← parseCell v))
+  | ["ycdel", k] => do pure (.cdel (← k.toInt?))
+  | "ypins" :: k :: cells => do pure (.pins (← k.toInt?) (← cells.mapM parseCell))
+  | ["ypdel", k] => do pure (.pdel (← k.toInt?))
+  | _ => none
+
 structure DState where
   w : World
   t : ITable
+  sc : TxnCons.Schema := {}
+  db : Db := ⟨[], []⟩
 
 def stepAll (st : DState) (ws : List String) : DState × String :=
   match ws with
   | ["xreset"] => ({ st with t := ⟨[], []⟩ }, "ok")
+  | ["yreset", nn, ck, uq, fk] =>
+    match parseNats nn, parseChecks ck, parseUniques uq, parseNats fk with
+    | some a, some b, some c, some d => ({ st with sc := ⟨a, b, c, d⟩, db := ⟨[], []⟩ }, "ok")
+    | _, _, _, _ => (st, "bad-op")
   | w0 :: _ =>
-    if w0.startsWith "x" then
+    if w0.startsWith "y" then
+      match parseCOp ws with
+      | some op =>
+        let (db', r) := applyCOp st.sc st.db op
+        let ok := if r == .ok then "ok" else "err"
+        ({ st with db := db' }, s!"{ok} P={dumpStr db'.p} C={dumpStr db'.c} K={cresStr r}")
+      | none => (st, "bad-op")
+    else if w0.startsWith "x" then
       match parseIOp ws with
       | some op =>
         let (t', r) := applyIOp st.t op
@@ -105,4 +143,4 @@ def stepAll (st : DState) (ws : List String) : DState × String :=
       ({ st with w := w' }, resp)
   | [] => (st, "bad-op")
 
-def main : IO Unit := run (⟨World.init, ⟨[], []⟩⟩ : DState) stepAll
+def main : IO Unit := run ({ w := World.init, t := ⟨[], []⟩ } : DState) stepAll
